@@ -96,9 +96,12 @@ AddSubEv(e) ==
                \cup When(e.last_same, Fail("C02.return", e.id, <<>>))
   IN /\ heap' = IF e.how = "struct" /\ known
                 THEN AppendKid([heap EXCEPT ![e.s].home = e.c, ![e.s].link = after], e.c, e.s)
-                ELSE IF ok THEN Resync(e, DoAddSub(heap, e.c, e.s, f, after), f) ELSE heap
+                ELSE IF ok THEN Resync(e, DoAddSub(heap, e.c, e.s, f, IF GivenIsValid(heap, e.c, given) THEN given ELSE after), f) ELSE heap
+                \* (a valid given relation is what the specification continues with, whatever the implementation reports)
      /\ fails' = fails \cup Tag(cl)
-     /\ UNCHANGED <<env, applied, flats, nobs, expect>>
+     \* a circuit that gains a block with a pending count is no longer "modifier-applied"
+     /\ applied' = IF known /\ \E b \in Blocks(heap, e.s) : EvalRep(env, heap[b].rep) # 1 THEN applied \ {e.c} ELSE applied
+     /\ UNCHANGED <<env, flats, nobs, expect>>
 
 CopyCircEv(e) ==
   LET known == e.s \in DOMAIN heap
@@ -172,7 +175,9 @@ ApplyEv(e) ==
                         When(R.k = "multi" /\ Range(H2[n].link.refs) \subseteq Range(R.refs),
                              Fail("D06.chain.group", n, <<"recorded", R, "specification", H2[n].link.refs>>))
                         : n \in appended}
-            \cup (IF c \in applied THEN When(e.new = <<>>, Fail("C06.idempotent", c, <<"second application created", Len(e.new)>>)) ELSE {})
+            \* idempotent: nothing pending (every count is 1) => applying creates nothing
+            \cup (IF c \in applied /\ \A b \in Blocks(H, c) : EvalRep(env, H[b].rep) = 1
+                  THEN When(e.new = <<>>, Fail("C06.idempotent", c, <<"second application created", Len(e.new)>>)) ELSE {})
             \* C08: exporting before or after unrolling gives the same multiset of instructions and the same number of measurements
             \* (the exporters do not repeat the top-level circuit itself, so this is stated for circuits whose own count is 1)
             \cup (IF e.stim_before.status = "ok" /\ e.stim_after.status = "ok" /\ EvalRep(env, H[c].rep) = 1
